@@ -105,12 +105,10 @@ class MetaArray(np.ndarray):
 
 SUBCLASS_KINDS = ('masked', 'masked1', 'meta', 'memmap')
 _TMPDIR = []
-# A np.ma.MaskedArray given as the VECTOR OPERAND of Spectrum (op) vector makes the unchanged code run the ufunc with np.ma
-# semantics (4/0 -> data 1.0 instead of inf).  Reported as an open finding (proposed_fixes/c13-masked-operand.patch); such
-# operands are generated only once this is set to True (after the patch is applied).
-MASKED_OPERAND_IS_VIOLATION = False
-if __import__('os').environ.get('VERIF_C13_MASKED_OPERAND') == '1':      # development-time override used with VERIF_REPO
-    MASKED_OPERAND_IS_VIOLATION = True
+# A np.ma.MaskedArray given as the VECTOR OPERAND of Spectrum (op) vector used to run the ufunc with np.ma semantics
+# (4/0 -> data 1.0 instead of inf); repaired by fix dcabfe2 (known_findings C13-masked-operand): masked operands are
+# generated and must act element-wise like the plain array with the same data.
+MASKED_OPERAND_IS_VIOLATION = True
 
 
 def subclass_of(a, kind):
@@ -358,6 +356,18 @@ def run_impl_(c):
             return out
         if op == 'hist':
             return run_history(c)
+        if op == 'call':
+            A, B = mk(c['a']), mk(c['b'])
+            sa, sb = snap(A), snap(B)
+            try:
+                r = getattr(A, METH[c['o']])(B, sampling=call_sampling(c['sampling']), method=call_method(c['method']),
+                                             fill_value=fill_arg(c['fill']))
+                out = res(r)
+                out['new'] = (r is not A) and (r is not B)
+            except Exception as e:
+                out = {'err': type(e).__name__}
+            out['unchanged'] = (snap(A) == sa and snap(B) == sb)
+            return out
         if op == 'big':
             try:
                 return run_big(c)
@@ -409,7 +419,10 @@ def run_impl_(c):
         else:
             x = other_operand(c['kind'])
         try:
-            if c.get('call') == 'method' and not c['refl']:
+            if c.get('call') == 'method' and not c['refl'] and c.get('junk'):
+                # sampling / method / fill_value are never looked at for a scalar or vector operand
+                r = getattr(S, METH[c['o']])(x, sampling='foo', method='bar', fill_value=(1, 2, 3))
+            elif c.get('call') == 'method' and not c['refl']:
                 r = getattr(S, METH[c['o']])(x)
             else:
                 r = PYOP[c['o']](x, S) if c['refl'] else PYOP[c['o']](S, x)
@@ -520,6 +533,96 @@ def gen_big(rng, tier):
             'd': str(F(2) ** rng.choice([-3, -2, -1])), 'c': str(rng.choice([0, 1, 2, F(1, 2)])), 'fill': str(rng.choice([0, 1, 3]))}
 
 
+# ---- the named methods with every argument form (refusal paths, interpolation kinds): op 'call'
+def call_sampling(sv):
+    if isinstance(sv, dict):
+        if 'bad' in sv:
+            return sv['bad']
+        return {'none': None, 'tuple': (1.0,), 'list': [1.0], 'array': np.array([1.0])}[sv['other']]
+    return sv if sv in ('min', 'left', 'right') else fl(sv)
+
+
+def call_method(m):
+    return None if m == 'None' else m
+
+
+def enc_sarg(sv):
+    if isinstance(sv, dict):
+        return [4] if 'bad' in sv else [5]
+    return enc_sampling(sv)
+
+
+METHCODE = {'linear': 0, 'quadratic': 1, 'cubic': 2}
+
+
+def compare_call(c, impl, model):
+    if ('err' in impl) != ('err' in model):
+        return (f'implementation {"raised " + impl["err"] if "err" in impl else "returned a value"}, '
+                f'model {"raised " + model["err"] if "err" in model else "returned a value"}')
+    if 'err' in impl:
+        return None if impl['err'] == model['err'] else f'error kinds differ: impl {impl["err"]} model {model["err"]}'
+    if (impl['wu'], impl['vu']) != (model['wu'], model['vu']):
+        return 'units differ'
+    if len(impl['wave']) != len(model['wave']) or len(impl['value']) != len(model['value']):
+        return f'lengths differ: impl {len(impl["wave"])}/{len(impl["value"])} model {len(model["wave"])}/{len(model["value"])}'
+    for i, (x, q) in enumerate(zip(impl['wave'], model['wave'])):
+        if not check_wave(x, q, False):
+            return f'wave[{i}]: impl {x} model {float(q)}'
+    scale = max([abs(F(x)) for sd in (c['a'], c['b']) for x in sd['value']] + [abs(F(x)) for x in (c['fill'] if isinstance(c['fill'], list) else [c['fill']])] + [F(1)])
+    for i, (x, mv) in enumerate(zip(impl['value'], model['value'])):
+        if mv[0] == 'q' and c['o'] in ('div', 'pow'):
+            ok = check_value(x, mv, False, abs(mv[1]), c['o'])
+        else:
+            ok = check_value(x, mv, False, scale * scale if c['o'] == 'mul' else scale, c['o'])
+        if not ok:
+            return f'value[{i}]: impl {x} model {mv}'
+    return None
+
+
+def gen_call(rng, tier):
+    """argument forms of the named methods: interpolation kinds (with too few samples for the spline order), unknown
+    kinds, sampling strings / objects that are not sampling methods, negative and zero numeric sampling, empty and
+    one-sample operands - the model decides whether the call returns and which exception it raises"""
+    w1, w2, rel = rnd_pair(rng, tier)
+    if rng.random() < 0.5:
+        w1, w2 = w2, w1
+    n1, n2 = rng.choice([len(w1), 1, 2, 3, 4]), rng.choice([len(w2), 1, 2, 3, 4])
+    w1, w2 = w1[:n1], w2[:n2]
+    kind = rng.choice(['method', 'method', 'badmethod', 'badsampling', 'negative', 'negative', 'empty', 'zero'])
+    if kind == 'empty':
+        t = rng.randrange(3)
+        w1, w2 = ([] if t != 1 else w1), ([] if t != 0 else w2)
+    o = rng.choice(['add', 'sub', 'mul', 'div'])
+    ua, ub, wb = 'nm', 'nm', w2       # one unit: a decimal unit factor would put range/sampling next to an integer
+    a = spec_dict(w1, rnd_values(rng, len(w1), 'pos'), ua)
+    b = spec_dict(wb, rnd_values(rng, len(wb), 'pos'), ub)
+    c = {'op': 'call', 'o': o, 'a': a, 'b': b, 'sampling': rnd_sampling(rng, w1, w2), 'method': 'linear',
+         'fill': rnd_fill(rng), 'kind': kind}
+    if kind == 'method':
+        c['method'] = rng.choice(['quadratic', 'cubic'])
+    elif kind == 'badmethod':
+        c['method'] = rng.choice(['foo', 'bar', 'None', 'LINEAR', 'spline'])
+        if rng.random() < 0.3:
+            c['sampling'] = {'bad': 'foo'} if rng.random() < 0.5 else {'other': 'none'}
+    elif kind == 'badsampling':
+        c['sampling'] = rng.choice([{'bad': 'MIN'}, {'bad': 'foo'}, {'bad': 'Left'}, {'bad': ''}, {'other': 'none'},
+                                    {'other': 'tuple'}, {'other': 'list'}, {'other': 'array'}])
+        c['method'] = rng.choice(['linear', 'linear', 'cubic', 'foo'])
+    elif kind == 'negative' and w1 and w2:
+        rngw = max(w1[-1], w2[-1]) - min(w1[0], w2[0])
+        if rngw == 0:
+            c['sampling'] = str(rng.choice([-1, -2]))
+        else:
+            ratio = rng.choice([F(-3, 10), F(-1), F(-3, 2), F(-2), F(-37, 10), F(-1, 64), F(-5)])
+            c['sampling'] = str(F(float(rngw / ratio)))
+        c['method'] = rng.choice(['linear', 'linear', 'quadratic', 'foo'])
+    elif kind == 'zero':
+        x = F(rng.randint(2, 9))
+        c['a'], c['b'] = spec_dict([x], [F(rng.randint(1, 5))]), spec_dict([x], [F(rng.randint(1, 5))])
+        c['sampling'] = rng.choice(['0', '-1', '2', 'min'])
+    return c
+
+
 def do_call(objs, call):
     """one step of a history on live objects -> canonical result"""
     k = call['k']
@@ -582,6 +685,9 @@ def encode(c):
     op = c['op']
     if op in ('hist', 'big'):
         return None
+    if op == 'call':
+        return ([7, METHCODE.get(c['method'], 3), OPS.index(c['o'])] + enc_sarg(c['sampling']) + enc_fill(c['fill'])
+                + enc_spec(c['a']) + enc_spec(c['b']))
     if op == 'spec':
         if c.get('method', 'linear') != 'linear':
             return None
@@ -862,6 +968,10 @@ def oracle(c, impl):
         return None
     if op == 'big':
         return oracle_big(c, impl)
+    if op == 'call':
+        # argument forms outside the documented ones are not pinned by the property: the model decides them (compare);
+        # here only: operands untouched (checked above) and a returned result is a new object
+        return None if 'err' in impl or impl.get('new') else 'result is not a new object'
     if op == 'hist':
         for n, (lv, fr) in enumerate(zip(impl['live'], impl['fresh'])):
             if fr is not None and not same_result(lv, fr):
@@ -1030,6 +1140,8 @@ def compare_rescaled(c, an, base, other, f, unit, what, exact):
 # ------------------------------------------------------------------ comparison with the extracted model
 def compare(c, impl, model):
     op = c['op']
+    if op == 'call':
+        return compare_call(c, impl, model)
     if 'err' in model and c.get('refl') and op in ('scalar', 'vector') and 'err' not in impl:
         return None     # a reflected form that works is judged by the oracle alone (the property does not pin TypeError)
     if ('err' in impl) != ('err' in model):
@@ -1246,7 +1358,7 @@ def decorate(rng, c, p=0.3):
         if ch and rng.random() < p:
             sd['vdt'] = rng.choice(ch)
         if all(F(x).denominator == 1 for x in sd['wave']) and rng.random() < p:
-            sd['wdt'] = rng.choice(['int64', 'pylist', 'int32'])
+            sd['wdt'] = rng.choice(['int64', 'pylist'] + (['int32'] if max(F(x) for x in sd['wave']) < 2 ** 31 else []))
         elif rng.random() < p / 2:
             sd['wdt'] = rng.choice(SUBCLASS_KINDS)
         if rng.random() < p / 2:
@@ -1487,6 +1599,7 @@ def gen_other(rng):
         c = {'op': 'scalar', 'o': o, 'refl': refl, 's': s, 'c': str(cval), 'ctype': ctype}
         if not refl and rng.random() < 0.4:
             c['call'] = 'method'
+            c['junk'] = rng.random() < 0.4
         if o == 'pow' and refl:
             c['s']['value'] = [str(rng.randint(-2, 3)) for _ in w]
         return c
@@ -1505,6 +1618,7 @@ def gen_other(rng):
         c = {'op': 'vector', 'o': o, 'refl': refl, 's': s, 'l': [str(x) for x in l], 'vtype': rng.choice(vts)}
         if not refl and rng.random() < 0.4:
             c['call'] = 'method'
+            c['junk'] = rng.random() < 0.4
         return c
     return {'op': 'other', 'o': o, 'refl': refl, 's': s, 'kind': rng.choice(['str', 'none', 'complex', 'dict', 'set'])}
 
@@ -1545,12 +1659,14 @@ def generate(rng, tier):
         yield gen_big(rng, tier)
     for _ in range(n):
         t = rng.random()
-        if t < 0.40:
+        if t < 0.35:
             c = gen_spec(rng, tier)
             c = decorate(rng, c, 0.15) if rng.random() < 0.3 else c
             yield rescale_case(rng, c) if rng.random() < 0.2 else c
-        elif t < 0.45:
+        elif t < 0.39:
             yield gen_nearties(rng, tier)
+        elif t < 0.45:
+            yield gen_call(rng, tier)
         elif t < 0.56:
             yield gen_dtype(rng, tier)
         elif t < 0.64:
@@ -1566,6 +1682,8 @@ def generate(rng, tier):
 
 
 def classify(c):
+    if c['op'] == 'call':
+        return 'call:' + c.get('kind', '')
     if c['op'] == 'spec':
         an = analyse(c)
         reg = 'undefined' if an.get('undefined') else ('exact' if an['exact'] else 'tolerant')
@@ -1579,7 +1697,7 @@ def is_storage_case(c):
 
 
 def nontrivial(c):
-    if c['op'] in ('hist', 'big'):
+    if c['op'] in ('hist', 'big', 'call'):
         return True
     if c['op'] == 'spec':
         return not (c['a']['wave'] == c['b']['wave'] and c['a']['wu'] == c['b']['wu'])
